@@ -151,7 +151,13 @@ func genC16Server(r *PRNG, scn *Scenario) *Scenario {
 			// only the per-side counters are schedule-independent there
 			side = r.PickS([]string{"r", "w"})
 		}
-		cc.FaultsB = []OpFault{{Side: side, K: r.Range(0, 14), Kind: hsFaultKinds[r.Intn(len(hsFaultKinds))], N: r.Pick([]int{0, 1, 50})}}
+		k := r.Range(0, 14)
+		if r.Chance(1, 2) {
+			// the write-side operations of Upgrade are few (arm the deadline, write the response, clear the
+			// deadline), while the number of reads the request takes depends on how the network chunks it
+			side, k = "w", r.Range(0, 3)
+		}
+		cc.FaultsB = []OpFault{{Side: side, K: k, Kind: hsFaultKinds[r.Intn(len(hsFaultKinds))], N: r.Pick([]int{0, 1, 50})}}
 	}
 	scn.Net = NetCfg{DefCap: 1 << 16, Conns: []ConnCfg{cc}}
 	return scn
@@ -328,7 +334,11 @@ func oracleC16Server(run *Run) {
 		sc = run.Conns[1] // with net/http the handler never sees the transport; it is the accepting end of pair 0
 	}
 	afterHijack := !strings.HasPrefix(log.UpgradeErr, "websocket:") || strings.Contains(string(resp), "HTTP/1.1 101")
-	if sc != nil && afterHijack && log.UpgradeErr != "" && !strings.HasPrefix(log.UpgradeErr, "bad request") && !sc.IsClosed() {
+	closed := sc != nil && sc.IsClosed()
+	if log.ClosedKnown {
+		closed = log.ClosedAtReturn
+	}
+	if sc != nil && afterHijack && log.UpgradeErr != "" && !strings.HasPrefix(log.UpgradeErr, "bad request") && !closed {
 		run.fail("C16", "connection-leaked", "server", "Upgrade failed after the hijack (%s) and left the connection open", log.UpgradeErr)
 	}
 }
